@@ -846,10 +846,16 @@ func (c *Ctx) idSpaceOfMethod(fn *types.Func, visiting map[*types.Func]bool, dep
 			}
 		})
 	}
-	if len(spaces) == 1 {
-		for s := range spaces {
-			return s
+	// a step shared by several routines (one assigner object for the local and the global
+	// numbering) serves each of their spaces: "global+local"
+	set := map[string]bool{}
+	for s := range spaces {
+		for _, t := range strings.Split(s, "+") {
+			set[t] = true
 		}
+	}
+	if len(set) > 0 && !set["?"] {
+		return strings.Join(sortedKeys(set), "+")
 	}
 	return "?"
 }
@@ -962,7 +968,9 @@ func ruleNUMAUTH(c *Ctx) []Obligation {
 					// namedVar: decided by the enclosing method's receiver
 					space = c.idSpaceOfMethod(fn, map[*types.Func]bool{}, 0)
 				}
-				auths = append(auths, auth{fn, call.Pos(), space})
+				for _, sp := range strings.Split(space, "+") {
+					auths = append(auths, auth{fn, call.Pos(), sp})
+				}
 				return true
 			})
 		})
@@ -997,11 +1005,19 @@ func ruleNUMAUTH(c *Ctx) []Obligation {
 				ref = funcKey(a.fn)
 			}
 		}
+		sort.SliceStable(as, func(i, j int) bool { return funcKey(as[i].fn) < funcKey(as[j].fn) })
+		perPkg := map[string]int{}
 		for _, a := range as {
 			o := Obligation{Key: fmt.Sprintf("%s numbers %s IDs", funcKey(a.fn), space), Pos: c.pos(a.pos), Verdict: OK, Detail: "the authority for " + space + " IDs"}
 			if funcKey(a.fn) != ref && ref != "" {
+				// keyed by package and ordinal, not by the function the routine happens to live in:
+				// a recorded finding follows the code through a rename or an inlining, and a further
+				// authority still gets a key of its own
+				pk := shortPkg(a.fn.Pkg().Path())
+				perPkg[pk]++
+				o.Key = fmt.Sprintf("package %s numbers %s IDs itself (authority #%d besides the printer's)", pk, space, perPkg[pk])
 				o.Verdict = VIOL
-				o.Detail = fmt.Sprintf("a second numbering authority for %s IDs next to %s, with its own traversal order: when unnamed entities of different kinds interleave, the parser's @N and the printer's @N denote different entities (and the printer's validation of parser-assigned IDs fails)", space, ref)
+				o.Detail = fmt.Sprintf("%s is a second numbering authority for %s IDs next to %s, with its own traversal order: when unnamed entities of different kinds interleave, the parser's @N and the printer's @N denote different entities (and the printer's validation of parser-assigned IDs fails)", funcKey(a.fn), space, ref)
 			}
 			obs = append(obs, o)
 		}
